@@ -88,6 +88,22 @@ type discardSink struct{}
 
 func (discardSink) Write(p []byte) (int, error) { return len(p), nil }
 
+// budgetSink discards too, but gives up after 32 MB: a trace line costs real time proportional to
+// the nesting depth, which the logical step cap does not see (one traced parse of 65 nested
+// parentheses under the sql grammar's exponential backtracking took 12 minutes).  The cut-off is
+// not a verdict: the run is dropped.
+type budgetSink struct{ n int64 }
+
+const traceBudgetMsg = "trace budget exceeded"
+
+func (b *budgetSink) Write(p []byte) (int, error) {
+	b.n += int64(len(p))
+	if b.n > 32<<20 {
+		panic(traceBudgetMsg)
+	}
+	return len(p), nil
+}
+
 func runRobustParse(rc *RunCtx) *Violation {
 	var v *Violation
 	simrt.RunInline(func() {
@@ -111,7 +127,7 @@ func robustOne(rc *RunCtx) *Violation {
 	var p PH
 	simrt.ShuffleMaps = true
 	pn := catch(func() { p = w.build(o) })
-	simrt.ShuffleMaps = false
+	simrt.ShuffleMaps = simrt.Choose(2) == 1 // map iteration order during lexing and parsing under the tape too
 	if pn != "" {
 		return &Violation{Signature: "parse/" + w.name + "/build-panic", Detail: pn}
 	}
@@ -147,8 +163,10 @@ func robustOne(rc *RunCtx) *Violation {
 	var popts []participle.ParseOption
 	// (short inputs only: a trace line costs real time proportional to the nesting depth, which the
 	// logical step cap does not see — a 400-level document traced for 10^7 steps took 12 minutes)
+	var traceSink *budgetSink
 	if simrt.Choose(6) == 1 && len(d) <= 300 {
-		popts = append(popts, participle.Trace(discardSink{}))
+		traceSink = &budgetSink{}
+		popts = append(popts, participle.Trace(traceSink))
 		variant += " Trace"
 		rc.probe("parsed with the Trace option (output discarded)")
 	}
@@ -236,6 +254,14 @@ func robustOne(rc *RunCtx) *Violation {
 			rd.account(rc)
 		}
 		res := m.res
+		if traceSink != nil {
+			traceSink.n = 0
+		}
+		if strings.HasPrefix(res.Panic, traceBudgetMsg) {
+			rc.probe("traced parse cut off by the trace byte budget (run dropped)")
+			rc.agg.Discarded++
+			return nil
+		}
 		if firstRes.Val == nil && firstRes.Err == nil {
 			firstRes = res
 		}
@@ -345,7 +371,7 @@ func robustOne(rc *RunCtx) *Violation {
 		before := errDesc(firstRes.Err)
 		later := "later-" + filename
 		m := measure(rc, d, func() (interface{}, error) { return p.ParseString(later, d, popts...) })
-		if after := errDesc(firstRes.Err); after != before && !m.capHit {
+		if after := errDesc(firstRes.Err); after != before && !m.capHit && !strings.HasPrefix(m.res.Panic, traceBudgetMsg) {
 			return viol("error-changes-after-later-call", fmt.Sprintf("the error a call returned read %s; after one more ParseString(%q, same input) on the same parser the same error value reads %s", before, later, after))
 		}
 		rc.probe("returned error re-read after a later call on the same parser")
